@@ -89,6 +89,20 @@ impl<T: Write + Read + Seek> E57Writer<T> {
     pub fn register_extension(&mut self, extension: Extension) -> Result<()> {
         Extension::validate_name(&extension.namespace)?;
         Extension::validate_name_start(&extension.namespace)?;
+        // These namespaces cannot be bound to another prefix (the file would not be well-formed XML)
+        // or would make the records of the extension indistinguishable from standard records
+        const RESERVED_URLS: [&str; 4] = [
+            "",
+            "http://www.w3.org/XML/1998/namespace",
+            "http://www.w3.org/2000/xmlns/",
+            "http://www.astm.org/COMMIT/E57/2010-e57-v1.0",
+        ];
+        if RESERVED_URLS.contains(&extension.url.as_str()) {
+            let url = &extension.url;
+            Error::invalid(format!(
+                "The URL '{url}' is reserved and cannot be used for an extension"
+            ))?
+        }
         if self
             .extensions
             .iter()
